@@ -144,4 +144,4 @@ def run(run, P, creators):
             return None
         ctx = solve(f, Env({'own': frozenset()}), on_event, None, keys, R, key_fn=lambda e: (e.ts['own'], tuple(e.nullf(a) for a in sorted(aps | fresh))), max_envs=512)
         run.stats['holder_solver_steps'] += ctx.steps
-    run.require(nh >= 3 or run.fixture_mode, 'R-HOLDER-LEAK: fewer than 3 functions store created objects into a fresh holder')
+    run.require(nh >= (3 if run.cfg == 'base' else 1) or run.fixture_mode, 'R-HOLDER-LEAK: fewer than 3 functions store created objects into a fresh holder')
